@@ -5,6 +5,12 @@ Proof: Props/C07.lean (`edit_refines`, `edits_refine`, `insert_beyond_noop`, `no
 expressions of Gen/Sites.lean (sec{32,64}_insert_*, sec*_set_*).  Correspondence: the same
 operation sequences on the real `section_impl` (harness/c07.cpp) and on the model (Driver/C07.lean).
 Oracle: Python bytes editing.
+Sources that alias the section's own buffer (Props/C07Alias.lean; the section model takes the source by value):
+`insertGrowAlias_eq` - in the growing branch (source read from the old buffer, alive until the move-assignment) an
+aliasing source behaves like its value at every position; `appendInPlaceAlias_eq` - in the in-place branch it does
+for appends; `insertInPlaceAlias_witness` - for an insert in the middle it does not (the tail move overwrites the
+source first), which is why only appends are generated with an aliasing source (`appself`).  A copy moved behind
+the release of the old buffer is a runtime matter (use after free): correspondence + ASan.
 """
 import itertools
 
@@ -13,7 +19,11 @@ FAMILY = "c07"
 LEAN_MODULE = "ElfioVerif.Props.C07"
 THEOREMS = ["ElfioVerif.C07.edit_refines", "ElfioVerif.C07.edits_refine", "ElfioVerif.C07.insert_beyond_noop",
             "ElfioVerif.C07.nobits_never_data", "ElfioVerif.C07.fresh_inv", "ElfioVerif.C07.loaded_inv",
-            "ElfioVerif.C07.lazy_inv"]
+            "ElfioVerif.C07.lazy_inv",
+            # sources that alias the section's own buffer (Props/C07Alias.lean)
+            "ElfioVerif.C07Alias.insertGrowAlias_eq", "ElfioVerif.C07Alias.appendInPlaceAlias_eq",
+            "ElfioVerif.C07Alias.insertInPlaceAlias_witness"]
+EXTRA_IMPORTS = ["ElfioVerif.Props.C07Alias"]
 SITES = ["sec32_insert", "sec64_insert", "sec32_set", "sec64_set"]
 RULE = ("operation sequences (set/app/ins and std::string overloads, appends whose source is a piece of the section's own buffer, chunks 0-300 bytes, positions 0..size+5, "
         "length<=12) on fresh sections of type PROGBITS/NOBITS/STRTAB and on sections loaded eagerly/lazily, "
